@@ -158,3 +158,79 @@ pub fn leak_class(s: &str) -> &'static str {
     l
 }
 
+
+/// E5: a libFuzzer campaign (cargo-fuzz target harness/fuzz, oracle inside the target) over
+/// the E1 scenario space. Thorough tiers only. A crash input is converted into a scenario
+/// replay file by the target itself.
+pub fn fuzz_campaign(ctx: &Ctx, runs: u64) -> vcore::SubReport {
+    let mut rep = vcore::SubReport::new("fuzz-campaign(E5)");
+    let root = vcore::verif_root();
+    let fuzz_dir = root.join("harness").join("fuzz");
+    let corpus = root.join("harness").join("work").join(format!("fuzz-corpus-{}", ctx.prop));
+    let _ = std::fs::remove_dir_all(&corpus);
+    let _ = std::fs::create_dir_all(&corpus);
+    let failure_file = root.join("harness").join("work").join(format!("fuzz-failure-{}.json", ctx.prop));
+    let _ = std::fs::remove_file(&failure_file);
+    let out = std::process::Command::new("cargo")
+        .current_dir(&fuzz_dir)
+        .args(["+nightly", "fuzz", "run", "-s", "none", "scenario"])
+        .arg(&corpus)
+        .arg("--")
+        .arg(format!("-runs={runs}"))
+        .arg(format!("-seed={}", (ctx.sub_seed("fuzz") % 0x7fff_fffe) + 1))
+        .args(["-len_control=0", "-max_len=600", "-print_final_stats=1"])
+        .env("RUSTFLAGS", "--cfg unimock_verif")
+        .env("CARGO_NET_OFFLINE", "true")
+        .env("VERIF_FUZZ_OUT", &failure_file)
+        .env("VERIF_FUZZ_PROP", &ctx.prop)
+        .output();
+    let out = match out {
+        Ok(o) => o,
+        Err(e) => {
+            rep.inconclusive = Some(format!("HARNESS: cannot run cargo fuzz: {e}"));
+            return rep;
+        }
+    };
+    let stderr = String::from_utf8_lossy(&out.stderr);
+    let stat = |key: &str| -> u64 {
+        stderr
+            .lines()
+            .find_map(|l| l.strip_prefix(&format!("stat::{key}:")).map(|v| v.trim().parse::<u64>().unwrap_or(0)))
+            .unwrap_or(0)
+    };
+    rep.evaluations = stat("number_of_executed_units");
+    let corpus_units = std::fs::read_dir(&corpus).map(|d| d.count()).unwrap_or(0) as u64;
+    // distinct, coverage-increasing inputs kept by libFuzzer
+    for i in 0..corpus_units {
+        rep.nontrivial.insert(vcore::stable_hash(&("fuzz-corpus-unit", i)));
+    }
+    rep.extra.insert("corpus_units".into(), serde_json::json!(corpus_units));
+    rep.extra.insert("note".into(), serde_json::json!("libFuzzer -seed pins a campaign only approximately; a failing input is saved as a scenario replay file and replayed through E1"));
+    if failure_file.exists() {
+        if let Ok(text) = std::fs::read_to_string(&failure_file) {
+            if let Ok(v) = serde_json::from_str::<serde_json::Value>(&text) {
+                let reason = v["reason"].as_str().unwrap_or("").to_string();
+                if reason.starts_with("HARNESS") {
+                    rep.inconclusive = Some(reason);
+                } else {
+                    rep.failure = Some(vcore::Failure { sub: "fuzz".into(), case: v["case"].clone(), reason });
+                }
+                return rep;
+            }
+        }
+    }
+    if !out.status.success() || rep.evaluations == 0 {
+        rep.inconclusive = Some(format!(
+            "HARNESS: cargo fuzz did not complete ({}): {}",
+            out.status,
+            stderr.lines().rev().take(6).collect::<Vec<_>>().join(" | ")
+        ));
+    }
+    if let Some(first) = std::fs::read_dir(&corpus).ok().and_then(|mut d| d.next()).and_then(|e| e.ok()) {
+        if let Ok(bytes) = std::fs::read(first.path()) {
+            rep.samples.push(serde_json::json!({"corpus_unit_bytes_hex": bytes.iter().take(64).map(|b| format!("{b:02x}")).collect::<String>()}));
+        }
+    }
+    let _ = std::fs::remove_dir_all(&corpus);
+    rep
+}
